@@ -68,6 +68,11 @@ CHECKS.update({
          "Every interleaving of three completer threads, one or two PipeTo callers and one or two Result callers with the three steps of ask() is explored by TLC for: single completion, every waiter/forwarder sees that completion's value exactly once, no registration left, everybody terminates. Simulated behaviours and random thread sets (time-outs 0.1-20 ms) are replayed on a real future created by the real Context.ask with a real timer and real forwarder actors; AskMon judges values, exactly-once forwarding, own-reply-only, time-out not early, waiters released and registry emptiness.",
          "Critical sections under Future.mu and futureLock are atomic; real timer (one-sided time check); one Ask per scenario (several concurrent Asks of one asker are exercised only through the random C10 stress).",
          "§5 C04"),
+ "C11": ("model_checking",
+         "TLA+ spec of the receiving side's framing (byte stream in arbitrary segments -> one frame per turn through a buffered reader), TLC: all segmentations over chosen cut sets (safety + all delivered); TLC-simulated write/read behaviours replayed on the real connection actor over a scripted net.Conn; end-to-end loopback runs; traces validated by TLC against DeliveryMon",
+         "TLC explores every interleaving of sender writes and reads whose lengths come from a cut set covering 'inside the length prefix', 'inside the body', 'exactly at a boundary' and 'several frames at once', for frame families with real body lengths at the minimum and around the reader's 4096-byte buffer. Simulated behaviours are replayed byte-exactly on the real tcpConnectionActor (real decoder, real HandleRemotingEnvelop, real receiving actor). Two real systems over loopback TCP add concurrency, both directions, Ask/Reply and payloads up to 1 MiB (4 MiB thorough). DeliveryMon: exactly once, in order per sender/receiver pair, intact, replies reach the asker, everything delivered on a healthy link.",
+         "Each frame is written by one Write call; kernel TCP segmentation is represented at the Read boundary; loopback runs sample schedules (not exhaustive).",
+         "§5 C11"),
 })
 
 NOT_YET = {
